@@ -232,6 +232,8 @@ impl<'a, Version, Purpose> Default for PasetoBuilder<'a, Version, Purpose> {
     //the unwraps in this function should be Infallible
     let mut new_builder = Self::new();
     let now = time::OffsetDateTime::now_utc();
+    #[cfg(rusty_paseto_verif)]
+    let now = crate::verif::now_or(now);
     let in_one_hour = now + time::Duration::hours(1);
 
     let expiration_time = in_one_hour.format(&Rfc3339).unwrap();
